@@ -225,6 +225,18 @@ func runC13(c *core.Ctx) {
 			c.Violate(inst+"|panic", caseID, "Append onto a fresh allocation panicked: "+msg, d)
 			continue
 		}
+		// the source is an allocation of its own: writing through the grown
+		// buffer must not reach it
+		for i := 0; i < a.Len(); i++ {
+			a.SetSample(i, t.FromInt(int64(1+i%7)))
+		}
+		for i := 0; i < src.Len(); i++ {
+			if want := mon.Canary(t.TypeInfo, i, g); !src.Sample(i).Same(want) {
+				c.Violate(inst+"|shared-object", caseID, fmt.Sprintf("after a.Append(src) grew a (allocator {C=%d L=%d K=%d}) and a was overwritten, position %d of the separately allocated source reads %v instead of %v", ch, l, k, i, src.Sample(i), want), d)
+				break
+			}
+		}
+		c.Obs("sources_rechecked_after_writing_through_the_grown_destination", 1)
 		fresh := t.Alloc(al)
 		for name, x := range map[string]dyn.Buf{"the other allocation": b, "a later allocation": fresh} {
 			bad := x.Len() != ch*l || x.Cap() != ch*k || x.RawLen() != ch*l || x.RawCap() != ch*k
